@@ -287,6 +287,23 @@ try:
         except Exception as e:  # noqa
             pr["err"] = type(e).__name__ + ": " + str(e)[:200]
         probes.append(pr)
+    # scale: a document larger than 10 MB with comments (inside text, between elements) loads like the same document without them
+    try:
+        half = "x" * 2650000
+        cell = '<izhikevichCell id="iz1" v0="-70mV" thresh="30mV" a="0.02" b="0.2" c="-50" d="2"/>'
+        t0 = '<neuroml xmlns="%s" id="big"><notes>%s%s</notes><property tag="t" value="%s%s"/>%s</neuroml>' % (NS, half, half, half, half, cell)
+        t1 = ('<neuroml xmlns="%s" id="big"><notes>%s<!-- presentation only -->%s</notes><!-- between --><property tag="t" value="%s%s"/>%s<!-- end --></neuroml>'
+              % (NS, half, half, half, half, cell))
+        fb0, fb1 = os.path.join(d, "big0.nml"), os.path.join(d, "big1.nml")
+        open(fb0, "w").write(t0)
+        open(fb1, "w").write(t1)
+        from neuroml.loaders import read_neuroml2_string
+        da, db = load_dump(fb0), load_dump(fb1)
+        dc = gds_impl.dump(read_neuroml2_string(t1))
+        probes.append({"name": "document-over-10MB-with-comments", "fixed": da == db == dc,
+                       "diff": [len(json.dumps(x)) for x in (da, db, dc)]})
+    except Exception as e:  # noqa
+        probes.append({"name": "document-over-10MB-with-comments", "err": type(e).__name__ + ": " + str(e)[:200]})
     # the same file (with an include) loaded repeatedly in one process must give the same document every time
     try:
         from neuroml.loaders import read_neuroml2_file
